@@ -10,10 +10,14 @@ def run(ctx):
     beh = mc.gen_meta(ctx, "beh.ndjson", n, 14, False, True, False, '{"label", "download"}')
     big = mc.gen_meta(ctx, "big.ndjson", 30 if ctx.thorough else 4, 8, False, True, False, '{"label"}',
                       bulks="{1001}", maxbundles=2, seed=ctx.seed + 5)
+    # delete-files over bundles of two index files (scripted: the same tree in two bundles and in a neighbour repository)
+    delf = mc.gen_meta(ctx, "delfiles.ndjson", 0, 8, False, True, False, '{"label"}', bulks="{1001}", maxbundles=3,
+                       script="delfiles-all" if ctx.thorough else "delfiles")
     cfgs = [["--leaf", "64"] + (["--crc"] if ctx.seed % 2 else [])]
     if ctx.thorough:
         cfgs += [["--leaf", "4096", "--crc", "--batch", "2"]]
-    jobs = mc.replay_jobs(ctx, beh, cfgs) + mc.replay_jobs(ctx, big, [["--leaf", "64", "--conc", "8"]], prefix="big")
+    jobs = mc.replay_jobs(ctx, beh, cfgs) + mc.replay_jobs(ctx, big, [["--leaf", "64", "--conc", "8"]], prefix="big") + \
+        mc.replay_jobs(ctx, delf, [["--leaf", "64", "--conc", "1"], ["--leaf", "64", "--conc", "8"]], prefix="delf")
     results = vlib.parallel(jobs, max_workers=8)
     # concurrent creators of one repository: every interleaving of their store calls (gate scheduler),
     # each trace validated call by call against ObjectStore.tla with ExactlyOneWinner (CreateRepoTrace.tla)
